@@ -135,3 +135,13 @@ contract('pmutt.io.json:remove_class', P, label='frame',
          args=dict(json_obj=Const({'class': 'x', 'type': 'y', '_id': 3, 'a': 1.0})),
          ensures=[('result-without-bookkeeping-keys', "result == {'a': 1.0}"),
                   ('argument-unmodified', "json_obj == old(json_obj)")], cross_check=False)
+
+# a plain dictionary that merely has a key 'class' is not a pMuTT object: it is passed through unchanged, alone or nested
+contract('pmutt.io.json:json_to_pmutt', P, label='plain-dict-with-class-key',
+         args=dict(json_obj=Const({'class': 'oxide', 'source': 'DFT'})),
+         ensures=[('passed-through', "result == {'class': 'oxide', 'source': 'DFT'}")], cross_check=False)
+contract('pmutt.statmech.elec:GroundStateElec.to_dict', P, label='roundtrip-next-to-a-plain-dict-with-class-key',
+         args=dict(self=New('pmutt.statmech.elec:GroundStateElec', potentialenergy=Real(-20., -1.), spin=Const(0.))),
+         ensures=[('decodes-with-the-dictionary-untouched',
+                   "spec.jsonrt.roundtrip({'notes': {'class': 'oxide', 'source': 'DFT'}, 'model': self})['notes'] == "
+                   "{'class': 'oxide', 'source': 'DFT'}")], cross_check=False)
